@@ -446,10 +446,18 @@ fn cure_grid() -> Vec<(&'static str, &'static str, String, String)> {
         ("value of another enumeration in a structure element", "P0014", format!("{}TYPE\ncg_s : STRUCT\ncg_e : cg_level := cg_red;\nEND_STRUCT;\nEND_TYPE\n", fb_level), "TYPE\ncg_color : (cg_red, cg_green);\nEND_TYPE\n".to_string()),
         ("variable of another function block", "P0015", "FUNCTION_BLOCK cg_user\nVAR\ncg_y : INT;\nEND_VAR\ncg_y := cg_other;\nEND_FUNCTION_BLOCK\n".to_string(), "FUNCTION_BLOCK cg_owner\nVAR\ncg_other : INT;\nEND_VAR\ncg_other := 1;\nEND_FUNCTION_BLOCK\n".to_string()),
         ("global variable without VAR_EXTERNAL", "P0015", "PROGRAM cg_user\nVAR\ncg_y : INT;\nEND_VAR\ncg_y := cg_glob;\nEND_PROGRAM\n".to_string(), "CONFIGURATION cg_conf\nVAR_GLOBAL\ncg_glob : INT := 1;\nEND_VAR\nRESOURCE cg_res ON cg_cpu\nPROGRAM cg_inst : cg_user;\nEND_RESOURCE\nEND_CONFIGURATION\n".to_string()),
-        ("instance of another program", "P0021", "FUNCTION_BLOCK cg_timer\nVAR_INPUT\ncg_in : INT;\nEND_VAR\nEND_FUNCTION_BLOCK\nPROGRAM cg_user\nVAR\ncg_y : INT;\nEND_VAR\ncg_tmr(cg_in := 1);\nEND_PROGRAM\n".to_string(), "PROGRAM cg_owner\nVAR\ncg_tmr : cg_timer;\nEND_VAR\ncg_tmr(cg_in := 2);\nEND_PROGRAM\n".to_string()),
-        ("instance taken by reference in a function", "P0021", "FUNCTION_BLOCK cg_timer\nVAR_INPUT\ncg_in : INT;\nEND_VAR\nEND_FUNCTION_BLOCK\nPROGRAM cg_user\nVAR\ncg_y : INT;\nEND_VAR\ncg_tmr(cg_in := 1);\nEND_PROGRAM\n".to_string(), "FUNCTION cg_owner : INT\nVAR_IN_OUT\ncg_tmr : cg_timer;\nEND_VAR\ncg_tmr(cg_in := 2);\ncg_owner := 1;\nEND_FUNCTION\n".to_string()),
+        ("instance of another program", "P0021", "FUNCTION_BLOCK cg_timer\nVAR_INPUT\ncg_in : INT;\nEND_VAR\nEND_FUNCTION_BLOCK\nPROGRAM cg_user\nVAR\ncg_y : INT;\nEND_VAR\ncg_tmr(cg_in := 1);\nEND_PROGRAM\n".to_string(), "FUNCTION_BLOCK cg_timer2\nVAR_INPUT\ncg_in : INT;\nEND_VAR\nEND_FUNCTION_BLOCK\nPROGRAM cg_owner\nVAR\ncg_tmr : cg_timer2;\nEND_VAR\ncg_tmr(cg_in := 2);\nEND_PROGRAM\n".to_string()),
+        ("instance taken by reference in a function", "P0021", "FUNCTION_BLOCK cg_timer\nVAR_INPUT\ncg_in : INT;\nEND_VAR\nEND_FUNCTION_BLOCK\nPROGRAM cg_user\nVAR\ncg_y : INT;\nEND_VAR\ncg_tmr(cg_in := 1);\nEND_PROGRAM\n".to_string(), "FUNCTION_BLOCK cg_timer2\nVAR_INPUT\ncg_in : INT;\nEND_VAR\nEND_FUNCTION_BLOCK\nFUNCTION cg_owner : INT\nVAR_IN_OUT\ncg_tmr : cg_timer2;\nEND_VAR\ncg_tmr(cg_in := 2);\ncg_owner := 1;\nEND_FUNCTION\n".to_string()),
         ("task of another configuration", "P0011", "PROGRAM cg_prog\nVAR\ncg_y : INT;\nEND_VAR\ncg_y := 1;\nEND_PROGRAM\nCONFIGURATION cg_conf\nRESOURCE cg_res ON cg_cpu\nPROGRAM cg_inst WITH cg_fast : cg_prog;\nEND_RESOURCE\nEND_CONFIGURATION\n".to_string(), "CONFIGURATION cg_conf2\nRESOURCE cg_res2 ON cg_cpu\nTASK cg_fast(INTERVAL := T#10ms, PRIORITY := 1);\nPROGRAM cg_inst2 WITH cg_fast : cg_prog;\nEND_RESOURCE\nEND_CONFIGURATION\n".to_string()),
         ("constant initialised elsewhere", "P0016", "FUNCTION_BLOCK cg_user\nVAR CONSTANT\ncg_k : INT;\nEND_VAR\nEND_FUNCTION_BLOCK\n".to_string(), "FUNCTION_BLOCK cg_owner\nVAR CONSTANT\ncg_k : INT := 5;\nEND_VAR\nEND_FUNCTION_BLOCK\n".to_string()),
+        // declarations WITHOUT any variable of their own, next to declarations whose variables are named
+        // like the faulty declaration or like the undeclared name, of several types (a transform that
+        // keeps per-declaration tables must not carry them from one declaration to the next)
+        ("function without variables; a companion's enumeration variable is named like the function", "P0015", "FUNCTION cg_f : INT\ncg_f := cg_missing;\nEND_FUNCTION\n".to_string(), format!("{}FUNCTION_BLOCK cg_owner\nVAR\ncg_f : cg_level := cg_info;\nEND_VAR\nEND_FUNCTION_BLOCK\n", fb_level)),
+        ("function without variables; a companion's integer variable is named like the function", "P0015", "FUNCTION cg_f : INT\ncg_f := cg_missing;\nEND_FUNCTION\n".to_string(), "FUNCTION_BLOCK cg_owner\nVAR\ncg_f : INT := 1;\nEND_VAR\nEND_FUNCTION_BLOCK\n".to_string()),
+        ("function without variables; a companion's enumeration variable is named like the undeclared name", "P0015", "FUNCTION cg_f : INT\ncg_f := cg_missing;\nEND_FUNCTION\n".to_string(), format!("{}PROGRAM cg_owner\nVAR\ncg_missing : cg_level := cg_warn;\nEND_VAR\nEND_PROGRAM\n", fb_level)),
+        ("program without variables; a companion's variable is named like the undeclared target", "P0015", "PROGRAM cg_p\ncg_q := 1;\nEND_PROGRAM\n".to_string(), format!("{}FUNCTION_BLOCK cg_owner\nVAR\ncg_q : cg_level := cg_info;\ncg_p : INT;\nEND_VAR\nEND_FUNCTION_BLOCK\n", fb_level)),
+        ("function block without variables; a companion function is named like the undeclared name", "P0015", "FUNCTION_BLOCK cg_b\ncg_g := cg_g + 1;\nEND_FUNCTION_BLOCK\n".to_string(), "FUNCTION cg_g : INT\nVAR_INPUT\ncg_i : INT;\nEND_VAR\ncg_g := cg_i;\nEND_FUNCTION\n".to_string()),
         ("unknown type that is a function block elsewhere", "P0022", "FUNCTION_BLOCK cg_user\nVAR\ncg_v : cg_missing;\nEND_VAR\nEND_FUNCTION_BLOCK\n".to_string(), "FUNCTION_BLOCK cg_owner\nVAR\ncg_missing : INT;\nEND_VAR\nEND_FUNCTION_BLOCK\n".to_string()),
     ]
 }
@@ -465,6 +473,7 @@ fn run_cure_grid(rep: &mut Report) {
         if alone.0 || !alone.1.iter().any(|c| c == code) || !(comp.0 || comp.1.iter().all(|c| c == "P9999")) {
             stats.case(false, hash_str(name));
             stats.class("cure-grid.precondition-not-met(skipped)");
+            stats.notes.push(format!("cure grid cell skipped ({}): faulty alone ok={} codes {:?}; companion alone ok={} codes {:?}", name, alone.0, alone.1, comp.0, comp.1));
             return Ok(());
         }
         let sets: Vec<Vec<String>> = vec![vec![faulty.clone(), companion.clone()], vec![companion.clone(), faulty.clone()], vec![format!("{}{}", faulty, companion)], vec![format!("{}{}", companion, faulty)]];
